@@ -111,10 +111,11 @@ Record cstate := {
   s_P : list osample;          (* the device buffer: what has been / will be played *)
   s_acq : Z;                   (* samples already sent to the extractor *)
   s_notes : list event;        (* notifications waiting in the two deques *)
-  s_live : list (Z * Z)        (* ghost: the queue's non-cancelled trials when the deques were last emptied *)
+  s_live : list (Z * Z);       (* ghost: the queue's non-cancelled trials when the deques were last emptied *)
+  s_added : list (Z * Z)       (* ghost: every (key, t0) notified as added so far, cancelled or not *)
 }.
 Definition cinit (q : qstate) : cstate :=
-  {| s_q := q; s_P := []; s_acq := 0; s_notes := []; s_live := [] |}.
+  {| s_q := q; s_P := []; s_acq := 0; s_notes := []; s_live := []; s_added := [] |}.
 
 Record ecfg := { x_val : osample -> Z;   (* the value of a sample (stands for the float) *)
                  x_K : Z;                (* number of stimuli *)
@@ -135,21 +136,21 @@ Definition qstep (R : qrep) (st : cstate) (o : qop) : option cstate :=
     | None => None
     | Some (q1, out, e1) =>
       Some {| s_q := q1; s_P := splice (s_P st) (q_samples q) out; s_acq := s_acq st;
-              s_notes := s_notes st ++ e1; s_live := s_live st |}
+              s_notes := s_notes st ++ e1; s_live := s_live st; s_added := s_added st ++ added_of e1 |}
     end
   | Pause tm =>
     let '(q1, e1, err) := pause R q tm in
     if err then None
     else Some {| s_q := q1; s_P := truncate (s_P st) tm; s_acq := s_acq st;
-                 s_notes := s_notes st ++ e1; s_live := s_live st |}
+                 s_notes := s_notes st ++ e1; s_live := s_live st; s_added := s_added st |}
   | Resume tm =>
     Some {| s_q := resume q tm; s_P := s_P st; s_acq := s_acq st; s_notes := s_notes st;
-            s_live := s_live st |}
+            s_live := s_live st; s_added := s_added st |}
   end.
 
 Definition astep (st : cstate) (m : Z) : cstate :=
   {| s_q := s_q st; s_P := s_P st; s_acq := s_acq st + m; s_notes := [];
-     s_live := live_of (s_q st) |}.
+     s_live := live_of (s_q st); s_added := s_added st |}.
 
 (* the feeds the extractor receives; None = the queue raised *)
 Fixpoint run_steps (R : qrep) (X : ecfg) (st : cstate) (steps : list step) : option (cstate * list feed) :=
